@@ -514,6 +514,7 @@ def main(pid, argv=None):
         real_valued_reencode(ck)
     if pid == "C17" and (not ck.replay or doc_level):
         cli_mode_restore(ck)
+        mode_schedules_unmodelled(ck)
     if pid == "C08" and (not ck.replay or doc_level):
         condensed_mask_corpus(ck)
     if pid == "C02" and (not ck.replay or doc_level):
@@ -559,6 +560,87 @@ def cli_mode_restore(ck):
         if after != start_mode:
             ck.violation(f"strict mode is {after} after running the command line {' '.join(argv[1:])} "
                          f"with strict mode {start_mode} before", {"argv": argv, "strict_mode_before": start_mode})
+
+
+def mode_schedules_unmodelled(ck):
+    """C17 (oracle only) on descriptions the codec model does not cover: float objects whose BIT-LENGTH contradicts
+    their base type (a problem reported in strict mode and tolerated in lenient mode) and valid ones, the multiplexer
+    and code-page requests of the C05 document; every operation under the schedule strict, lenient, strict, lenient,
+    strict: all strict outcomes are identical (a lenient run repairs nothing for good), a lenient outcome equals the
+    strict one whenever that succeeded, and the static lengths never change"""
+    import logging
+    import hier_common as hc
+    import odxtools.exceptions as ex
+
+    def fdop(name, bt, bits):
+        return (f'<DATA-OBJECT-PROP ID="{name}"><SHORT-NAME>{name}</SHORT-NAME><COMPU-METHOD><CATEGORY>IDENTICAL</CATEGORY></COMPU-METHOD>'
+                f'<DIAG-CODED-TYPE BASE-DATA-TYPE="{bt}" xsi:type="STANDARD-LENGTH-TYPE"><BIT-LENGTH>{bits}</BIT-LENGTH></DIAG-CODED-TYPE>'
+                f'<PHYSICAL-TYPE BASE-DATA-TYPE="{bt}"/></DATA-OBJECT-PROP>')
+    fl = [("f32_16", "A_FLOAT32", 16), ("f32_32", "A_FLOAT32", 32), ("f64_32", "A_FLOAT64", 32), ("f64_64", "A_FLOAT64", 64),
+          ("f32_64", "A_FLOAT32", 64)]
+    dops = "".join(fdop(*x) for x in fl)
+    reqs = "".join(
+        f'<REQUEST ID="rq_{n}"><SHORT-NAME>rq_{n}</SHORT-NAME><PARAMS><PARAM xsi:type="CODED-CONST"><SHORT-NAME>sid</SHORT-NAME>'
+        f'<BYTE-POSITION>0</BYTE-POSITION><CODED-VALUE>{0x50 + i}</CODED-VALUE><DIAG-CODED-TYPE BASE-DATA-TYPE="A_UINT32" '
+        'xsi:type="STANDARD-LENGTH-TYPE"><BIT-LENGTH>8</BIT-LENGTH></DIAG-CODED-TYPE></PARAM>'
+        f'<PARAM xsi:type="VALUE"><SHORT-NAME>v</SHORT-NAME><BYTE-POSITION>1</BYTE-POSITION><DOP-REF ID-REF="{n}"/></PARAM>'
+        '<PARAM xsi:type="CODED-CONST"><SHORT-NAME>tail</SHORT-NAME><CODED-VALUE>170</CODED-VALUE><DIAG-CODED-TYPE BASE-DATA-TYPE="A_UINT32" '
+        'xsi:type="STANDARD-LENGTH-TYPE"><BIT-LENGTH>8</BIT-LENGTH></DIAG-CODED-TYPE></PARAM></PARAMS></REQUEST>'
+        for i, (n, _bt, _b) in enumerate(fl))
+    doc = ('<?xml version="1.0" encoding="UTF-8"?><ODX MODEL-VERSION="2.2.0" xmlns:xsi="http://www.w3.org/2001/XMLSchema-instance">'
+           '<DIAG-LAYER-CONTAINER ID="DLC"><SHORT-NAME>DLC</SHORT-NAME><BASE-VARIANTS><BASE-VARIANT ID="BV"><SHORT-NAME>BV</SHORT-NAME>'
+           f'<DIAG-DATA-DICTIONARY-SPEC><DATA-OBJECT-PROPS>{dops}</DATA-OBJECT-PROPS></DIAG-DATA-DICTIONARY-SPEC>'
+           f'<REQUESTS>{reqs}</REQUESTS></BASE-VARIANT></BASE-VARIANTS></DIAG-LAYER-CONTAINER></ODX>')
+    ops = []  # (label, replay, thunk)
+    try:
+        ex.strict_mode = False  # (descriptions with such problems only load in lenient mode, if at all)
+        logging.getLogger("odxtools").disabled = True
+        try:
+            raw = hc.load_docs([doc]).diag_layers[0].diag_layer_raw
+            raw2 = hc.load_docs([UNMODELLED_DOC]).diag_layers[0].diag_layer_raw
+        finally:
+            ex.strict_mode = True
+            logging.getLogger("odxtools").disabled = False
+    except Exception as e:  # noqa
+        ck.note_broken(f"cannot load the documents of the mode schedules: {type(e).__name__}: {e}")
+        return
+    for rq in raw.requests:
+        n = rq.short_name
+        for v in (1.5, 0.0):
+            ops.append((f"{n}.encode(v={v})", {"request": n, "value": v}, lambda rq=rq, v=v: bytes(rq.encode(v=v)).hex()))
+        for m in (bytes([rq.parameters[0].coded_value]) + bytes(range(1, 10)), bytes([rq.parameters[0].coded_value, 0x3F, 0xC0, 0xAA])):
+            ops.append((f"{n}.decode({m.hex()})", {"request": n, "msg": m.hex()}, lambda rq=rq, m=m: repr(cc.canon_value(rq.decode(m)))))
+        ops.append((f"{n}.get_static_bit_length()", {"request": n}, lambda rq=rq: rq.get_static_bit_length()))
+        ops.append((f"{n}.v.dop.get_static_bit_length()", {"request": n}, lambda rq=rq: rq.parameters[1].dop.get_static_bit_length()))
+    for rq in raw2.requests:
+        sid = bytes(rq.coded_const_prefix())
+        for t in (b"", b"\x01", b"\x01\x02\x03", b"\x81\x41\x41\xd8", b"\x02\xff"):
+            ops.append((f"{rq.short_name}.decode({(sid + t).hex()})", {"document": "UNMODELLED_DOC", "request": rq.short_name, "msg": (sid + t).hex()},
+                        lambda rq=rq, m=sid + t: repr(cc.canon_value(rq.decode(m)))))
+
+    def run(thunk, strict):
+        ex.strict_mode = strict
+        logging.getLogger("odxtools").disabled = not strict
+        try:
+            r, e, _ = cc.guarded(thunk, timeout=5)
+        finally:
+            ex.strict_mode = True
+            logging.getLogger("odxtools").disabled = False
+        return ("ok", r) if e is None else ("error", type(e).__name__)
+    n = 0
+    for label, rp, thunk in ops:
+        outs = [run(thunk, m) for m in (True, False, True, False, True)]
+        n += 1
+        ck.count(("schedule", label))
+        ck.hist("mode_pair", f"strict={outs[0][0]} lenient={outs[1][0]}")
+        bad = None
+        if outs[2] != outs[0] or outs[4] != outs[0]:
+            bad = f"strict outcomes differ along the schedule strict, lenient, strict, lenient, strict: {outs}"
+        elif outs[0][0] == "ok" and (outs[1] != outs[0] or outs[3] != outs[0]):
+            bad = f"succeeds in strict mode with {outs[0][1]!r} but lenient mode gives {outs[1]} / {outs[3]}"
+        if bad:
+            ck.violation(f"{label}: {bad}", dict(rp, schedule=True))
+    ck.coverage["schedule_operations"] = n
 
 
 def condensed_mask_corpus(ck):
